@@ -292,6 +292,83 @@ def getTimestampForCommit (waitUntil maxSleepNs : Nat) (script : List Nat) : Com
     else if tsSubNs waitUntil first > (maxSleepNs : Int) then .errDrift
     else commitLoop waitUntil (maxSleepNs / 1000000) rest 0 0 first
 
+/-! ## the commit paths that fetch a commit timestamp
+
+  Every commit mode obtains the timestamp it commits at (or the `min_commit_ts` it sends) through
+  `GetTimestampForCommit`; PD is a script of the values successive `GetTimestamp` calls return. -/
+
+/-- `commitLoop` that also returns the unconsumed part of the script -/
+def commitLoopR (waitUntil budget : Nat) : List Nat → Nat → Nat → Nat → CommitRes × List Nat
+  | script, n, total, ts =>
+    if ts > waitUntil then (.ok ts, script)
+    else if budget > 0 ∧ total ≥ budget then (.errTimeout, script)
+    else match script with
+      | [] => (.exhausted, [])
+      | t :: rest => commitLoopR waitUntil budget rest (n + 1) (total + boSleep n) t
+
+/-- `GetTimestampForCommit` returning the rest of the PD script as well -/
+def fetchCommitTS (waitUntil maxSleepNs : Nat) (script : List Nat) : CommitRes × List Nat :=
+  match script with
+  | [] => (.exhausted, [])
+  | first :: rest =>
+    if first > waitUntil then (.ok first, rest)
+    else if maxSleepNs = 0 then (.errZeroSleep, rest)
+    else if tsSubNs waitUntil first > (maxSleepNs : Int) then (.errDrift, rest)
+    else commitLoopR waitUntil (maxSleepNs / 1000000) rest 0 0 first
+
+inductive CMode | twoPC | async | onePC | pipelined
+  deriving DecidableEq, Repr
+
+/-- what the store does: `expired` = the first commit of the primary is rejected with CommitTsExpired (2PC and
+    pipelined), `fallback` = the async-commit / 1PC prewrite falls back to ordinary 2PC -/
+inductive StoreBeh | normal | expired | fallback
+  deriving DecidableEq, Repr
+
+inductive TxnRes
+  | ok (commitTS : Nat) (minSent : Nat)   -- committed at commitTS; minSent = min_commit_ts sent with the prewrites (async / 1PC; else 0)
+  | err (e : CommitRes)                   -- Commit failed with that outcome of a commit-ts fetch
+  deriving DecidableEq, Repr
+
+/-- after the prewrites of an async-commit / 1PC transaction that sent `minC` as min_commit_ts -/
+def afterPrewrite (beh : StoreBeh) (c maxSleepNs minC : Nat) (rest : List Nat) : TxnRes :=
+  if beh = .fallback then
+    -- the store refused async commit / 1PC: ordinary 2PC, the commit ts is fetched after the prewrites
+    match fetchCommitTS c maxSleepNs rest with
+    | (.ok ts, _) => .ok ts minC
+    | (e, _) => .err e
+  else .ok minC minC
+
+/-- after the commit ts `ts` of an ordinary 2PC / pipelined transaction was fetched -/
+def afterFetch (beh : StoreBeh) (c maxSleepNs ts : Nat) (rest : List Nat) : TxnRes :=
+  if beh = .expired then
+    -- CommitTsExpired on the primary: "update commit ts and retry"
+    match fetchCommitTS c maxSleepNs rest with
+    | (.ok ts2, _) => .ok ts2 0
+    | (e, _) => .err e
+  else .ok ts 0
+
+/-- the commit-timestamp decisions of `twoPhaseCommitter.execute` / `commitFlushedMutations` /
+    `actionCommit.handleSingleBatch`.  `causal` = SetCausalConsistency(true); `c` = commitWaitUntilTSO (0 = none). -/
+def commitTxn (mode : CMode) (causal : Bool) (beh : StoreBeh) (startTS c maxSleepNs : Nat) (script : List Nat) : TxnRes :=
+  match mode with
+  | .async | .onePC =>
+    -- before the prewrites: `if commitTSMayBeCalculated && (needLinearizability() || commitWaitUntilTSO > 0)`
+    if causal = false ∨ c > 0 then
+      match fetchCommitTS c maxSleepNs script with
+      | (.ok ts, rest) => afterPrewrite beh c maxSleepNs (max (startTS + 1) (ts + 1)) rest
+      | (e, _) => .err e
+    else afterPrewrite beh c maxSleepNs (startTS + 1) script
+  | .twoPC | .pipelined =>
+    match fetchCommitTS c maxSleepNs script with
+    | (.ok ts, rest) => afterFetch beh c maxSleepNs ts rest
+    | (e, _) => .err e
+
+/-- the commit-wait specification: a commit that succeeds does so at a timestamp strictly above the constraint, and a
+    `min_commit_ts` handed to the store (async commit / 1PC) is strictly above it as well -/
+def CommitWaitSpec (mode : CMode) (c : Nat) : TxnRes → Prop
+  | .ok commitTS minSent => commitTS > c ∧ ((mode = .async ∨ mode = .onePC) → minSent > c)
+  | .err _ => True
+
 /-! ## adaptive update interval -/
 
 inductive AState | none | normal | adapting | recovering | unadjustable
